@@ -117,9 +117,10 @@ T4 = N_(0, 1, 2, 3, 4)
 T3 = N_(0, 1, 2, 3)
 for sh, K, V in (("u8", "u8", "u8"), ("id", "Key", "u8")):
     S = "S_" + sh
-    add("c01_get_" + sh, "c01::h_get::<%s, %s, {N}>()" % (K, V), ["C01", "C06"], Q3, T4,
+    WIDE = N_(9) if sh == "u8" else []  # thorough only: one capacity beyond every 4x/8x unrolling threshold
+    add("c01_get_" + sh, "c01::h_get::<%s, %s, {N}>()" % (K, V), ["C01", "C06"], Q3 + WIDE, T4 + WIDE,
         fn="Map::get, contains_key, get_key_value", shape=S)
-    add("c01_get_mut_" + sh, "c01::h_get_mut::<%s, %s, {N}>()" % (K, V), ["C01", "C05", "C06"], Q3, T4,
+    add("c01_get_mut_" + sh, "c01::h_get_mut::<%s, %s, {N}>()" % (K, V), ["C01", "C05", "C06"], Q3 + WIDE, T4 + WIDE,
         fn="Map::get_mut", shape=S)
     add("c01_index_" + sh, "c01::h_index::<%s, %s, {N}>()" % (K, V), ["C01", "C06"], N_(1, 2), N_(1, 2, 3, 4),
         fn="Index::index, IndexMut::index_mut (key present)", shape=S)
@@ -130,10 +131,10 @@ for sh, K, V in (("u8", "u8", "u8"), ("id", "Key", "u8")):
     for w, nm, f in ((0, "insert", "Map::insert"), (1, "insert_key_value", "Map::insert_key_value"),
                      (2, "checked_insert", "Map::checked_insert")):
         add("c01_%s_%s" % (nm, sh), "c01::h_insert::<%s, %s, {N}>(%d)" % (K, V, w), ["C01", "C05", "C12"] + (["C03"] if w == 2 else []),
-            Q3 if w == 2 else N_(1, 2), T4 if w == 2 else N_(1, 2, 3, 4), profile="both", fn=f, shape=S)
+            (Q3 if w == 2 else N_(1, 2)) + WIDE, (T4 if w == 2 else N_(1, 2, 3, 4)) + WIDE, profile="both", fn=f, shape=S)
     for w, nm in ((0, "remove"), (1, "remove_entry"), (2, "remove_borrowed"), (3, "remove_entry_borrowed")):
         add("c01_%s_%s" % (nm, sh), "c01::h_remove::<%s, %s, {N}>(%d)" % (K, V, w), ["C01", "C05"] + (["C12"] if w in (1, 3) else []),
-            Q3 if w < 2 else N_(2), T4 if w < 2 else N_(3), fn="Map::" + nm.replace("_borrowed", ""), shape=S)
+            (Q3 + WIDE) if w < 2 else N_(2), (T4 + WIDE) if w < 2 else N_(3), fn="Map::" + nm.replace("_borrowed", ""), shape=S)
     add("c01_retain_" + sh, "c01::h_retain::<%s, %s, {N}>()" % (K, V), ["C01", "C05"], Q3, T3, unwind="N+2",
         fn="Map::retain", shape=S)
     add("c01_clear_" + sh, "c01::h_clear::<%s, %s, {N}>()" % (K, V), ["C01", "C05"], Q3, T4, fn="Map::clear", shape=S)
@@ -197,12 +198,13 @@ add("c03_checked_full_tok", "c03::h_checked_full_tok::<{N}>()", ["C03", "C02"], 
 # ------------------------------------------------------------------ C07 (Set model), C12 for sets
 for sh, T in (("u8", "u8"), ("id", "Key")):
     S = "S_" + sh
-    add("c07_insert_" + sh, "c07::h_set_insert::<%s, {N}>(0)" % T, ["C07", "C12", "C05"], N_(1, 2), N_(1, 2, 3, 4), profile="both", fn="Set::insert", shape=S)
+    W9 = N_(9) if sh == "u8" else []  # one capacity beyond every 4x/8x unrolling threshold
+    add("c07_insert_" + sh, "c07::h_set_insert::<%s, {N}>(0)" % T, ["C07", "C12", "C05"], N_(1, 2) + W9, N_(1, 2, 3, 4) + W9, profile="both", fn="Set::insert", shape=S)
     add("c07_replace_" + sh, "c07::h_set_insert::<%s, {N}>(1)" % T, ["C07", "C12", "C05"], N_(1, 2), N_(1, 2, 3, 4), fn="Set::replace", shape=S)
-    add("c07_lookup_" + sh, "c07::h_set_lookup::<%s, {N}>()" % T, ["C07", "C12", "C06"], Q3, T4, fn="Set::contains, Set::get", shape=S)
+    add("c07_lookup_" + sh, "c07::h_set_lookup::<%s, {N}>()" % T, ["C07", "C12", "C06"], Q3 + W9, T4 + W9, fn="Set::contains, Set::get", shape=S)
     for i, op in enumerate(("remove", "take", "remove_borrowed", "take_borrowed")):
         add("c07_%s_%s" % (op, sh), "c07::h_set_remove::<%s, {N}>(%d)" % (T, i), ["C07", "C05"] + (["C12"] if "take" in op else []),
-            Q3 if i < 2 else N_(2), T4 if i < 2 else N_(3), fn="Set::" + op.replace("_borrowed", ""), shape=S)
+            (Q3 + W9) if i < 2 else N_(2), (T4 + W9) if i < 2 else N_(3), fn="Set::" + op.replace("_borrowed", ""), shape=S)
     add("c07_retain_" + sh, "c07::h_set_retain::<%s, {N}>()" % T, ["C07", "C05"], Q3, T3, fn="Set::retain", shape=S)
     add("c07_clear_" + sh, "c07::h_set_clear_drain::<%s, {N}>(false)" % T, ["C07"], Q3, T3, fn="Set::clear", shape=S)
     add("c07_drain_" + sh, "c07::h_set_clear_drain::<%s, {N}>(true)" % T, ["C07", "C10"], Q3, T3, profile="both", fn="Set::drain, SetDrain::next/len", shape=S)
@@ -241,10 +243,10 @@ add("c10_set_into_iter_id", "c10::h_set_into_iter::<Key, {N}>()", ["C10", "C12"]
 for sh, K, V in (("u8", "u8", "u8"), ("id", "Key", "u8")):
     S = "S_" + sh
     for i, op in enumerate(("or_insert", "or_insert_with", "or_insert_with_key", "or_default", "and_modify")):
-        add("c11_%s_%s" % (op, sh), "c11::h_entry_or::<%s, %s, {N}>(%d)" % (K, V, i), ["C11", "C12", "C05"], N_(1, 2), N_(1, 2, 3), profile="both" if i == 0 else "debug",
+        add("c11_%s_%s" % (op, sh), "c11::h_entry_or::<%s, %s, {N}>(%d)" % (K, V, i), ["C11", "C12", "C05"], N_(1, 2) + (N_(9) if sh == "u8" and i in (0, 4) else []), N_(1, 2, 3) + (N_(9) if sh == "u8" else []), profile="both" if i == 0 else "debug",
             fn="Map::entry, Entry::%s" % op, shape=S)
     for i, op in enumerate(("insert", "into_mut_into_key", "remove", "remove_entry")):
-        add("c11_direct_%s_%s" % (op, sh), "c11::h_entry_direct::<%s, %s, {N}>(%d)" % (K, V, i), ["C11", "C12", "C05"], N_(1, 2), N_(1, 2, 3),
+        add("c11_direct_%s_%s" % (op, sh), "c11::h_entry_direct::<%s, %s, {N}>(%d)" % (K, V, i), ["C11", "C12", "C05"], N_(1, 2) + (N_(9) if sh == "u8" and i == 0 else []), N_(1, 2, 3) + (N_(9) if sh == "u8" else []),
             fn="OccupiedEntry::{key,get,get_mut,%s} / VacantEntry::{key,insert,into_key}" % op, shape=S)
 
 # ------------------------------------------------------------------ C14 equality, C15 clone (view)
@@ -254,7 +256,7 @@ add("c14_map_eq_u8", "c14::h_map_eq::<u8, u8, {N}, {M}>()", ["C14"], QP, TP, unw
 add("c14_map_eq_id", "c14::h_map_eq::<Key, Key, {N}, {M}>()", ["C14"], NM([(2, 2)]), NM([(2, 3), (3, 3)]), unwind="max(N,M)+2", fn="PartialEq::eq for Map", shape="S_id")
 add("c14_set_eq_u8", "c14::h_set_eq::<u8, {N}, {M}>()", ["C14"], QP, TP, unwind="max(N,M)+2", fn="PartialEq::eq for Set", shape="S_u8")
 for sh, K, V in (("u8", "u8", "u8"), ("id", "Key", "u8")):
-    add("c15_clone_view_" + sh, "c14::h_clone_view::<%s, %s, {N}>()" % (K, V), ["C15"], Q3, T3 + (N_(5, 6) if sh == "u8" else []), fn="Clone::clone for Map", shape="S_" + sh)
+    add("c15_clone_view_" + sh, "c14::h_clone_view::<%s, %s, {N}>()" % (K, V), ["C15"], Q3 + (N_(5) if sh == "u8" else []), T3 + (N_(5, 6) if sh == "u8" else []), fn="Clone::clone for Map", shape="S_" + sh)
     add("c15_set_clone_view_" + sh, "c14::h_set_clone_view::<%s, {N}>()" % K, ["C15"], Q3, T3, fn="Clone::clone for Set", shape="S_" + sh)
 
 # ------------------------------------------------------------------ C16 bulk construction
@@ -337,8 +339,8 @@ def NL(n, lens):
     return [{"N": n, "A": l} for l in lens]
 
 
-add("c19_display_map", "c19::h_display_map::<{N}>({A})", ["C19", "C06"], NL(2, (0, 1, 2)) + NL(3, (3,)), NL(3, (0, 1, 2, 3)) + NL(4, (4,)) + NL(5, (5,)) + NL(6, (6,)), unwind="max(N,4)+2", fn="Display for Map", shape="S_fmt", timeout="30m")
-add("c19_display_set", "c19::h_display_set::<{N}>({A})", ["C19", "C06"], NL(2, (0, 1, 2)) + NL(3, (3,)), NL(3, (0, 1, 2, 3)) + NL(4, (4,)) + NL(5, (5,)) + NL(6, (6,)), unwind="max(N,4)+2", fn="Display for Set", shape="S_fmt", timeout="30m")
+add("c19_display_map", "c19::h_display_map::<{N}>({A})", ["C19", "C06"], NL(2, (0, 1, 2)) + NL(3, (3,)) + NL(5, (5,)), NL(3, (0, 1, 2, 3)) + NL(4, (4,)) + NL(5, (5,)) + NL(6, (6,)), unwind="max(N,4)+2", fn="Display for Map", shape="S_fmt", timeout="30m")
+add("c19_display_set", "c19::h_display_set::<{N}>({A})", ["C19", "C06"], NL(2, (0, 1, 2)) + NL(3, (3,)) + NL(5, (5,)), NL(3, (0, 1, 2, 3)) + NL(4, (4,)) + NL(5, (5,)) + NL(6, (6,)), unwind="max(N,4)+2", fn="Display for Set", shape="S_fmt", timeout="30m")
 add("c19_debug_map", "c19::h_debug_map::<{N}>(false, {A})", ["C19", "C06"], NL(2, (0, 1, 2)), NL(3, (0, 1, 2, 3)), unwind="max(N,6)+2", fn="Debug for Map ({:?})", shape="S_fmt", timeout="30m")
 add("c19_debug_map_alt", "c19::h_debug_map::<{N}>(true, {A})", ["C19"], NL(1, (0,)), NL(1, (0, 1)), unwind="max(N,6)+2", fn="Debug for Map ({:#?})", shape="S_fmt", timeout="30m")
 add("c19_debug_set", "c19::h_debug_set::<{N}>(false, {A})", ["C19", "C06"], NL(2, (0, 1, 2)), NL(3, (0, 1, 2, 3)), unwind="max(N,6)+2", fn="Debug for Set ({:?})", shape="S_fmt", timeout="30m")
@@ -410,10 +412,12 @@ for wi, nm in enumerate(ITERS):
     for oi, op in enumerate(("fold", "nth", "last", "count")):
         # (N, len, cut, j)
         q = [(4, 4, 0, 1), (2, 2, 1, 1), (2, 0, 0, 0)] if op != "nth" else [(4, 4, 0, 1), (3, 3, 1, 1), (2, 2, 0, 2), (2, 0, 0, 0)]
+        if op in ("fold", "last"):
+            q = q + [(9, 9, 0, 1)]  # beyond every 4x/8x unrolling threshold of an overriding fold/last
         th = q + [(4, 4, 0, 3), (4, 3, 1, 0), (3, 3, 3, 0), (1, 1, 0, 0)]
         add("drv_%s_%s" % (nm, op), "derived::h_derived::<{N}>(%d, %d, {A}, {B}, {C})" % (wi, oi), P,
             [{"N": n, "A": a, "B": b, "C": c} for n, a, b, c in q], [{"N": n, "A": a, "B": b, "C": c} for n, a, b, c in th],
-            unwind="8", fn="%s::%s agrees with stepping by next()" % (nm, op), shape="S_u8")
+            unwind="max(8,N+3)", fn="%s::%s agrees with stepping by next()" % (nm, op), shape="S_u8")
 
 # ------------------------------------------------------------------ second round additions: defaulted trait methods, lying sources
 for sh, K, V in (("u8", "u8", "u8"), ("id", "Key", "u8")):
